@@ -6,6 +6,7 @@ pub mod wirepath;
 pub mod life;
 pub mod hb;
 pub mod open;
+pub mod pool;
 
 pub fn run(args: &Args, log: &Log) -> Result<(), String> {
     match args.driver.as_str() {
@@ -16,6 +17,7 @@ pub fn run(args: &Args, log: &Log) -> Result<(), String> {
         "life" => life::run(args, log),
         "hb" => hb::run(args, log),
         "open" => open::run(args, log),
+        "pool" => pool::run(args, log),
         d => Err(format!("unknown driver {d}")),
     }
 }
